@@ -32,10 +32,12 @@ def pregen(work):
 
 def extra(work, res, tier, proofs_ok):
     """directed search: when the regenerated table is no longer disciplined, the driver (model mode) names
-    the method pairs with unprotected conflicting accesses; those the matrix found clean are re-run with
-    many more iterations and all four workers before settling for `no-failing-input-found`."""
-    if proofs_ok:
-        return
+    the method pairs with unprotected conflicting accesses (e.g. Get:read:vals[] vs Append:write:vals[]); those
+    the matrix found clean are re-run heavier, both as the plain pair and as `directed` cases (all variants of
+    one method against sequences "other mutators of the type as preparation, then the other method"),
+    before settling for `no-failing-input-found`."""
+    if proofs_ok or any(v[1] for v in res.violations):
+        return      # nothing broken, or the matrix / sequence cases already produced a concrete race
     d = os.path.join(work.dir, "corr-races")
     trace, vm = os.path.join(d, "trace.txt"), os.path.join(d, "verdict.model")
     if not (os.path.exists(trace) and os.path.exists(vm)):
@@ -53,10 +55,17 @@ def extra(work, res, tier, proofs_ok):
         return
     factor = 10 if tier == "quick" else 4
     ops = []
-    for op in suspects[:24]:
+    for op in suspects[:16]:
         ws = op.split()
-        ws[-1] = str(int(ws[-1]) * factor)
-        ops.append(" ".join(ws))
+        if ws[:2] != ["new", "pair"]:
+            continue
+        n = str(int(ws[-1]) * factor)
+        # the same pair, heavier; and the pair with every other mutator of the type as preparation steps
+        # (a conflict may need a state only a sequence of calls produces, e.g. spare capacity)
+        ops.append(" ".join(ws[:-1] + [n]))
+        ops.append(" ".join(["new", "directed"] + ws[2:-1] + [n]))
+    if not ops:
+        return
     dd = os.path.join(work.dir, "corr-races-directed")
     os.makedirs(dd, exist_ok=True)
     opath, tpath, vpath = (os.path.join(dd, x) for x in ("ops.txt", "trace.txt", "verdict.spec"))
@@ -95,7 +104,7 @@ MANIFEST = dict(
           "(c15_accessTable_disciplined); table + certificate give race freedom of every execution the table describes "
           "(c15_raceFree) and hand-off happens-before (c15_handoff_lock/atomic); (3) a pairwise method matrix (every pair "
           "of public methods of every type on one instance, 2-4 goroutines, payloads written before and read after the "
-          "hand-off) and a mixed stress per type run under the Go race detector, one subprocess per pair; the Lean driver "
+          "hand-off), a mixed stress and a writer-sequences-against-readers case per type (scripted and random sequences of the mutating methods: delete-tail-then-append, fill-then-drain, ...) run under the Go race detector, one subprocess per case; when the table obligation breaks, a directed search stresses exactly the method pairs the driver names, with the other mutators as preparation steps; the Lean driver "
           "accepts only `clean` and, in model mode, only pairs the regenerated table declares conflict-free."),
     note=COMMON_NOTE + (" Residue: the access-table analysis is syntactic/intraprocedural with inlined helpers and summaries for "
                         "owned objects of other packages (written iff the callee assigns through its receiver); objects of recursive "
